@@ -12,6 +12,7 @@ Record xcase := {
   c_bids : list N;
   c_refuse : list bool;
   c_faults : list (cmd * nat);
+  c_fbad : list (cmd * nat);     (* the faults whose error is driver.ErrBadConn *)
   c_prog : list op;
   c_jour : list ev;      (* observed *)
   c_out : list ores      (* observed *)
@@ -22,7 +23,8 @@ Definition env_of (c : xcase) : env :=
      e_xid := fun g => nth g (c_xids c) [];
      e_bid := fun k => nth k (c_bids c) 0;
      e_refuse := fun k => nth k (c_refuse c) false;
-     e_fault := fun k n => existsb (fun f => cmd_eqb k (fst f) && Nat.eqb n (snd f)) (c_faults c) |}.
+     e_fault := fun k n => existsb (fun f => cmd_eqb k (fst f) && Nat.eqb n (snd f)) (c_faults c);
+     e_fbad := fun k n => existsb (fun f => cmd_eqb k (fst f) && Nat.eqb n (snd f)) (c_fbad c) |}.
 
 Definition res_eqb (a b : res) : bool :=
   match a, b with
@@ -40,7 +42,7 @@ Definition ev_eqb (a b : ev) : bool :=
 
 Definition ores_eqb (a b : ores) : bool :=
   match a, b with
-  | OSkipped, OSkipped | OOk, OOk | OErr, OErr => true
+  | OSkipped, OSkipped | OOk, OOk | OErr, OErr | OErrBad, OErrBad => true
   | OP2 x, OP2 y => Bool.eqb x y
   | _, _ => false
   end.
